@@ -129,7 +129,7 @@ CLAIMS = {
  "C20": dict(
   text=("The real module.c (load from inside constructors, depth-first post-init walk with loop detection, unload in rounds) is executed by the verifier for EVERY "
         "dependency graph over three stub modules - all 512 matrices including cycles and self-dependencies - with the configuration naming m0 (quick; plus a rotating third "
-        "of the graphs with the listing m1, m2), and for all nine listings in the thorough tier; plus unloadable-module cases and, for four modules, the diamond and a chain with an unrelated module under all 24 namings each and 96 (thorough: 1024) pseudo-random graphs. "
+        "of the graphs with the listing m1, m2), and for five listings (m0; m1; m2; m1, m2; m2, m1) in the thorough tier; plus unloadable-module cases and, for four modules, the diamond and a chain with an unrelated module under all 24 namings each and 96 (thorough: 256) pseudo-random graphs. "
         "Each run checks the property's clauses against the event log of the stub modules: constructed once, dependencies constructed first, post-init once and after the "
         "dependencies' (also along two paths), destructors before those of the dependencies, every module unloaded; a cycle or an unloadable module aborts start-up before "
         "any member of the cycle is post-initialised. One job per graph: the structure is concrete, so each run is an exact execution of the real code."),
